@@ -416,6 +416,13 @@ void name_thread(const char *name) { if (t_self) { strncpy(t_self->name, name, s
 uint64_t seq() { return ++g_seq; }
 uint64_t steps() { return g_steps; }
 int threads_alive() { return g_alive; }
+bool thread_idle(int tid) {
+  Ig ig_;
+  if (tid < 0 || tid >= g_nthreads) return false;
+  Thread *t = &g_threads[tid];
+  if (t->state != T_BLOCKED_IO && t->state != T_BLOCKED_COND && t->state != T_BLOCKED_JOIN) return false;   // a stalled or sleeping thread is not at rest
+  return !is_enabled(t);
+}
 int64_t now_ns() { return g_now; }
 void advance_ns(int64_t d) { if (d > 0) g_now += d; }
 int64_t wall_offset_ns() { return g_wall_off; }
